@@ -30,6 +30,7 @@ import (
 	"github.com/IrineSistiana/mosproxy/verif/internal/gen"
 	"github.com/IrineSistiana/mosproxy/verif/internal/pki"
 	"github.com/IrineSistiana/mosproxy/verif/internal/proxyproc"
+	"github.com/IrineSistiana/mosproxy/verif/internal/racelog"
 	"github.com/miekg/dns"
 )
 
@@ -68,6 +69,16 @@ func c18RunChild(c *Ctx, name string, watchdog int, args ...string) (out string,
 		}
 	}
 	killed = exit == 124 || strings.Contains(out, "SIGQUIT: quit")
+	// A data race on the closing path is a crash waiting to happen ("fatal error: concurrent map
+	// iteration and map write" cannot be recovered): reports whose stacks go through a Close of the
+	// code under test are appended to the child's output as violations.
+	for key, rs := range racelog.Dedup(racelog.ParseFiles(filepath.Join(dir, "race.*"))) {
+		txt := rs[0].Text
+		if strings.Contains(txt, "github.com/IrineSistiana/mosproxy/") && (strings.Contains(txt, ".Close(") || strings.Contains(txt, ".close(") || strings.Contains(txt, ".closeImpl(")) {
+			_ = key
+			out += fmt.Sprintf("\nVIOL data-race-on-close-path:%s a data race whose stacks go through Close (%d reports): %s\n", c20ShortEntry(rs[0]), len(rs), strings.ReplaceAll(txt[:min(len(txt), 1200)], "\n", " | "))
+		}
+	}
 	return
 }
 
